@@ -1,5 +1,5 @@
 SPECIFICATION TSpec
-INVARIANTS BufEmptyAtBegin FileInPkg InfoIdentityStable InputsReadOnly
+INVARIANTS BufEmptyAtBegin FileInPkg InfoIdentityStable CtxImportsCurrent InputsReadOnly
 POSTCONDITION Accepted
 CHECK_DEADLOCK FALSE
 VIEW View
